@@ -80,6 +80,9 @@ func CatalogSpecs(seed int64) []Func {
 			if ps[i].Kind == PObj {
 				if r.P(0.2) {
 					ps[i].Hidden = 1 + r.Intn(len(ps[i].Fields)+1)
+					if r.P(0.3) {
+						ps[i].Hidden = -1
+					}
 				}
 				hide(ps[i].Fields)
 			}
@@ -119,7 +122,10 @@ func (w *catWriter) paramGoType(fn int, p Param, path string) string {
 	}
 	name := fmt.Sprintf("CatIn%d_%s", fn, path)
 	var sb strings.Builder
-	if p.Hidden > 0 {
+	if p.Hidden < 0 {
+		// the unexported field is declared before the dig.In embed
+		fmt.Fprintf(&sb, "type %s struct {\n\thiddenFirst *K0\n\tdig.In `ignore-unexported:\"true\"`\n", name)
+	} else if p.Hidden > 0 {
 		fmt.Fprintf(&sb, "type %s struct {\n\tdig.In `ignore-unexported:\"true\"`\n", name)
 	} else {
 		fmt.Fprintf(&sb, "type %s struct {\n\tdig.In\n", name)
